@@ -494,6 +494,9 @@ Definition mon_op (prop : Z) (m : mstate) (t o : tree) : mstate :=
                        (* an id above the current one was never issued: error; an id of a produced packet
                           must be accepted once the channel is open *)
                        flag 17 (negb ((m_vscid m <? id) || (id <? 0)) || negb ok) ++
+                       (* clause 18: an id the provider never issued (not yet stamped in an epoch block: id >= the
+                          current id at receive time) must be answered with an error *)
+                       flag 18 (negb ok || (id <? m_vscid m)) ++
                        flag 16 (negb ok || (hh =? -1) ||
                                 (if id =? 0 then hh =? m_open m
                                  else match ulast id (m_prodh m) with
